@@ -21,6 +21,9 @@ package main
 //	               aborts the transaction as usual.   -  no swallowing
 //	decoration  m  the entity handed to Create/Update has Migrate=true and explicit CreatedAt/UpdatedAt
 //	            t  it carries tags       x  both       -  plain
+//	            l  it carries linked ids for the link fields its strategy persists with PersistContext.SetLinkedIds
+//	               (sStore.LinkIds): every entity of the other store present at that moment     e  the empty list
+//	               (store_c16w3.go; no effect on stores whose strategy has no such field)
 //
 // Extra observation tokens (before the read tokens):
 //
@@ -49,7 +52,7 @@ const c16ModeStore = "@m"
 type c16Mode struct {
 	Ctx     byte // b s n u x y
 	Swallow bool
-	Deco    byte // - m t x
+	Deco    byte // - m t x l e
 }
 
 func (m c16Mode) derived() bool { return m.Ctx == 's' || m.Ctx == 'n' || m.Ctx == 'u' }
@@ -109,8 +112,11 @@ var (
 	c16MigUpdated = time.Date(2002, 3, 4, 5, 6, 7, 0, time.UTC)
 )
 
-func (h *harnessDb) c16Entity(op *hOp, m c16Mode) *gEnt {
+func (h *harnessDb) c16Entity(tx *bbolt.Tx, op *hOp, m c16Mode) *gEnt {
 	e := h.entityFor(op)
+	if m.Deco == 'l' || m.Deco == 'e' {
+		h.c16w3LinkIds(tx, op, e, m.Deco == 'l') // store_c16w3.go: linked ids for the strategy's SetLinkedIds
+	}
 	if m.Deco == 'm' || m.Deco == 'x' {
 		e.Migrate = true
 		e.CreatedAt = c16MigCreated
@@ -126,7 +132,7 @@ func (h *harnessDb) c16ExecOp(ctx boltz.MutateContext, op *hOp, m c16Mode) error
 	gs := h.stores[op.Store]
 	switch op.Kind {
 	case "C":
-		return gs.Create(ctx, h.c16Entity(op, m))
+		return gs.Create(ctx, h.c16Entity(ctx.Tx(), op, m))
 	case "UP":
 		var chk boltz.FieldChecker
 		if op.HasChk {
@@ -136,7 +142,7 @@ func (h *harnessDb) c16ExecOp(ctx boltz.MutateContext, op *hOp, m c16Mode) error
 			}
 			chk = mc
 		}
-		return gs.Update(ctx, h.c16Entity(op, m), chk)
+		return gs.Update(ctx, h.c16Entity(ctx.Tx(), op, m), chk)
 	}
 	return h.execOp(ctx, op)
 }
@@ -600,6 +606,7 @@ func (g *xGen) c16Mix(t *hTx) string {
 			}
 		}
 	}
+	g.c16w3Decorate(t, ms) // linked ids for strategies that use SetLinkedIds (store_c16w3.go)
 	c16SetModes(t, ms)
 	return scenario
 }
